@@ -588,6 +588,10 @@ class DriverEngine(Engine):
 
             DriverEngine.corpus = streamsim.build_corpus(min(16, os.cpu_count() or 1))
             _, DriverEngine.full_ctx = streamsim._contexts()
+            import gc
+
+            gc.collect()
+            gc.freeze()  # 80 loaded dialects: keep them out of later collections (see streamsim)
 
     # -- second workload: the shipped canonicalization patterns on corpus modules ----
     def _run_real(self, cfg: Stream, sch: Stream, res: RunResult, tr: list[str] | None) -> None:
